@@ -283,6 +283,8 @@ def run(chk, ctx):
     P = Prog(ctx["facts"])
     from . import eqrules
     eqrules.require_clone(chk, P, ["stmt::DataEntry"], "literal entries (X/Z/C/Number) evaluate to themselves")
+    from . import lexrules
+    lexrules.spelling_rule(chk, P, ("Loop", "Repeat", "While", "Let", "End", "Bits", "LParen", "RParen", "Comma", "Semi", "Equal"))   # the constructs the statement names are spelled that way
     chk.explanation = ("C01 decided as the per-construct obligations of a structural induction (DESIGN.md section 5, C01) on the automaton extracted from the resumable interpreter: states are the variants of the dispatched state field, edges are the acyclic paths from a state's arm to the dispatch or a return, "
                        "with guards, ordered effects (push_frame / pop_frame / set / get / Expr::eval tagged with the origin of its expression / DataEntry::eval / reset_random_seed / slice iterator next / nested next_with_context), next state and exit shape; states are classified by their edges, never by name. "
                        "Obligations: 1 sequencing, 2 row, 3 let, 4 frame pairing, 5 bound evaluated once, 6 counter protocol, 7 zero-trip guard, 8 body, 9 while, 10 resetRandom; plus FramedMap discipline, the MSB-first bits expansion and the parser's repeat/loop/while desugaring. "
